@@ -106,3 +106,6 @@ META = {
 
 # ROUND-8-APPEND-2
 PROP['rule'] += ' Round 8: c13.refresh - real Run loop with a 100 ms refresh interval under a steady stream of head updates every 10 ms (from every live connection / only from connections other than the choice, both strategies): when the choice dies, dies again, a better connection returns, or the choice stays alive but falls 2+ blocks behind, the pool must have switched to a live current connection within 10 intervals (periodic refresh is owed regardless of update traffic; key refresh-starved-by-updates). c13.sethead - 2 and 4 goroutines report distinct heads to ONE real connection at the same instant (40000 rounds quick): the head must end at the maximum and a concurrent MasterHead() reader never sees it decrease (key sethead-not-atomic). Both run in background goroutines overlapping the other families (oracle-only). Source obligations Properties/C13_gen_r8.v over Generated/PoolSections.v (translate genC13r8: critical sections of every pool method with fields read/written, calls outside sections): C13_gen_sethead_check_and_store_one_section (comparison with the stored head and the assignment are in one Lock section), C13_gen_writers_single_lock_episode (every writer of a guarded field has exactly one lock episode, so no check-then-act split), C13_gen_subscribe_check_and_register_one_section, C13_gen_guarded_writes_under_write_lock, C13_gen_guarded_reads_outside_sections.'
+
+# ROUND-8-META
+META['text'] += " Round 8: source obligations C13_gen_sethead_check_and_store_one_section and C13_gen_writers_single_lock_episode (vm_compute over the critical sections the translator extracts from liteapi/pool on every run: fields read and written per section, calls outside sections): comparison and store of a connection's head are one critical section and no writer of a guarded field splits check and act over two sections; real-time scenarios for the periodic refresh under steady head updates and for concurrent SetMasterHead calls."
